@@ -272,7 +272,18 @@ def run_trj(ctx, rng, idx):
                 'length_hint': hint}
         ctx.describe(desc)
         orders = set()
-        for procs in [1, 2, 4, 8][:int(rng.integers(2, 5))]:
+        # the application's multiprocessing start method is process-level
+        # state too: 'spawn' / 'forkserver' (the default on macOS, Windows and
+        # newer Pythons) pickle the pool's initargs instead of inheriting
+        # them.  Restored in this function's finally clause.
+        import multiprocessing as _mp
+        spawnish = idx % 25 == 7 and not many
+        if spawnish:
+            _mp.set_start_method(['spawn', 'forkserver'][(idx // 25) % 2],
+                                 force=True)
+            ctx.count('loads_under_spawn_or_forkserver')
+        for procs in ([2] if spawnish else
+                      [1, 2, 4, 8][:int(rng.integers(2, 5))]):
             # first file slowest, others random: completion order != file order
             ctx.delays.clear()
             for i, f in enumerate(files):
@@ -363,6 +374,9 @@ def run_trj(ctx, rng, idx):
             ctx.sample(dict(desc, completion_orders=[list(o) for o in
                                                      list(orders)[:3]]))
     finally:
+        import multiprocessing as _mp2
+        if _mp2.get_start_method(allow_none=True) != 'fork':
+            _mp2.set_start_method('fork', force=True)
         shutil.rmtree(d, ignore_errors=True)
 
 
